@@ -98,8 +98,14 @@ func (t *T) at(l Loc) *T {
 					at = i
 				}
 			}
+			if at < 0 {
+				return nil
+			}
 			cur = cur.Kids[at]
 		} else {
+			if cur.K != 'a' || s.Idx >= len(cur.Kids) {
+				return nil
+			}
 			cur = cur.Kids[s.Idx]
 		}
 	}
@@ -205,7 +211,9 @@ func targetFor(r *lib.Rng, doc *T, l Loc, plainOnly bool) Target {
 				tg = append(tg, Frag{K: 'n', N: s.Idx})
 			}
 		}
-		cur = cur.at(Loc{s})
+		if cur = cur.at(Loc{s}); cur == nil {
+			break // (a repeated member name: the rest of the path is under the earlier member)
+		}
 	}
 	if len(tg) > 0 && r.Intn(6) == 0 {
 		tg = tg[:len(tg)-1]
@@ -521,11 +529,11 @@ func dupKeyCases(full bool, r *lib.Rng, emit func(*Case)) {
 		if len(objs) == 0 {
 			continue
 		}
+		locs := doc.allLocs() // of the document before the repetition: every one still exists
 		o := lib.Pick(r, objs)
 		k := lib.Pick(r, o.Keys)
 		o.Keys = append(o.Keys, k)
 		o.Kids = append(o.Kids, randDoc(r, 2, 2, false))
-		locs := doc.allLocs()
 		nt := 1 + r.Intn(2)
 		var ts []Target
 		for j := 0; j < nt; j++ {
